@@ -93,11 +93,22 @@ def run_corpus(ctx, hx):
     return n
 
 
-def replay(ctx, hx_run):
+def replay(ctx, hx_run, hx):
     r = json.load(open(ctx.replay_file))["replay"]
+    for k in ("text", "text_with_extra_blanks"):
+        if r.get(k) is not None:
+            tmp = os.path.join(vlib.CACHE, f"c15_replay_{os.getpid()}.txt")
+            open(tmp, "w").write(r[k])
+            rc, out = vlib.sh([hx, "--mode", "lexfile", "--file", tmp], timeout=60)
+            os.remove(tmp)
+            ctx.log(f"real lexer on {k} = {r[k]!r}: {out.strip()}")
+    if r.get("pieces"):
+        mo, _ = vlib.coq_eval_terms("c15r", IMPORTS, [f"asi ({r['pieces']})"])
+        ctx.log("model asi:", mo[0])
     progs = [r[k] for k in ("base_program", "variant_program", "program") if r.get(k)]
     if not progs:
-        ctx.log("replay file has no program text; content:", json.dumps(r)[:1500])
+        if not r.get("text"):
+            ctx.log("replay file has no program text; content:", json.dumps(r)[:1500])
         return
     tmp = os.path.join(vlib.CACHE, f"c15_replay_{os.getpid()}.aelys")
     open(tmp, "w").write("\n=====\n".join(progs))
@@ -129,7 +140,7 @@ def run(ctx):
         return
     hx = paths["hx_asi"]
     if ctx.replay_file:
-        replay(ctx, paths["hx_run"])
+        replay(ctx, paths["hx_run"], hx)
         return
     total, distinct = 0, set()
     dist = {}
